@@ -392,6 +392,11 @@ func evalClasses1(run *ev.Run, c *ClassCase) string {
 
 type TableCase struct {
 	Rules  []*lexm.Expr // single classes and literals, one token each, one mode
+	// Macro[i]: rule i is written "T = M" with "@macro M = <expression>" (a macro's expression is
+	// evaluated once per expansion; every evaluation must denote the same set); Late: the macros are
+	// declared after the rules that use them
+	Macro []bool `json:",omitempty"`
+	Late  bool   `json:",omitempty"`
 	Lox    string       `json:",omitempty"`
 	Detail string       `json:",omitempty"`
 }
@@ -399,7 +404,15 @@ type TableCase struct {
 func (c *TableCase) spec() *lexm.Spec {
 	s := &lexm.Spec{Modes: []*lexm.Mode{{Name: ""}}}
 	for i, e := range c.Rules {
+		if i < len(c.Macro) && c.Macro[i] {
+			mn := fmt.Sprintf("M%c", 'A'+rune(i))
+			s.Macros = append(s.Macros, &lexm.Macro{Name: mn, E: e})
+			e = &lexm.Expr{Kind: "ref", Ref: mn}
+		}
 		s.Modes[0].Rules = append(s.Modes[0].Rules, &lexm.Rule{Name: fmt.Sprintf("T%c", 'A'+rune(i)), E: e})
+	}
+	if c.Late && len(s.Macros) > 0 {
+		s.Style = 8 | (len(c.Rules)-1)<<4
 	}
 	return s
 }
@@ -596,7 +609,7 @@ func TestC15(t *testing.T) {
 	defer run.Finish(t)
 	run.Rule = "level 1: rang3.Flatten/Normalize on EVERY list of <=3 ranges over the universe 0..7 and Subtract on every pair of lists of <=2 ranges over 0..5 (exhaustive), the same shapes shifted to U+10FFFF, plus random lists of <=8 ranges over the full code space with boundary bias; oracle = interval-set semantics, output sorted/disjoint(/non-touching), callbacks replayed on a multiset (Flatten: merged pair is the exact union; Normalize: every original range stays the exact disjoint union of its pieces, pieces pairwise equal or disjoint). " +
 		"level 2: class expressions (ranges, singles, escapes, negation, difference) rendered with documented spellings, parsed by the real front end; GetRanges() compared with the set-theoretic meaning. " +
-		"level 3: several overlapping single-class tokens plus literals in one mode through the real codegen.Generate; the emitted table, decoded by its documented format, must label every boundary code point (endpoints +-1, 0, U+10FFFF), every literal and every single-code-point mutation of a literal exactly as the rules do (earliest rule containing it). " +
+		"level 3: several overlapping single-class tokens plus literals in one mode (a third of the specifications with some of the expressions behind macros, declared before or after their use) through the real codegen.Generate; the emitted table, decoded by its documented format, must label every boundary code point (endpoints +-1, 0, U+10FFFF), every literal and every single-code-point mutation of a literal exactly as the rules do (earliest rule containing it). " +
 		"non-trivial = list with >=2 ranges / class with negation, difference or >=2 items / table spec with >=2 rules where some probe is accepted"
 	run.Assumptions = []string{"interval-set reference in lib/lexm", "surrogate code points cannot occur in inputs"}
 
@@ -779,12 +792,22 @@ func TestC15(t *testing.T) {
 				cases = append(cases, tc)
 				return
 			}
+			viaMacro := rapid.IntRange(0, 2).Draw(rt, "via-macro") == 0
 			for i, n := 0, rapid.IntRange(2, 6).Draw(rt, "n"); i < n; i++ {
 				if rapid.IntRange(0, 2).Draw(rt, "lit") == 0 {
 					tc.Rules = append(tc.Rules, lexgen.GenLitAny(rt))
+				} else if viaMacro {
+					tc.Rules = append(tc.Rules, lexgen.GenClassRich(rt))
 				} else {
 					tc.Rules = append(tc.Rules, lexgen.GenClassAny(rt))
 				}
+				if viaMacro {
+					tc.Macro = append(tc.Macro, rapid.Bool().Draw(rt, "macro"))
+				}
+			}
+			if viaMacro {
+				tc.Late = rapid.IntRange(0, 3).Draw(rt, "late") == 0
+				run.Class("level3:specs-with-macros")
 			}
 			cases = append(cases, tc)
 		})
